@@ -27,7 +27,7 @@ def terms_of(P, fn):
 def run(chk, tier):
     P = Prog("serde")
     chk.configs.add("serde")
-    for r in (r_helpers, r_errors, r_strings, r_timedelta, r_timedelta_pair, r_noreach, r_absint):
+    for r in (r_helpers, r_errors, r_strings, r_timedelta, r_timedelta_pair, r_noreach, r_str_primitive, r_visit_some_errors, r_absint):
         chk.guarded(r, P, tier)
     chk.assume("the round trip through concrete data formats (serde_json, bincode) is not decided; serde's own code is outside the analysed crate")
     return {
@@ -228,3 +228,41 @@ def r_absint(chk, P, tier):
     res = e1.run_engine(P, tier)
     e1.report(chk, P, res, "ABSINT.serde", "every panic-capable site / lossy cast in the serde modules is discharged or justified",
               fn_filter=lambda fn: "serde" in fn, floor=12)
+
+
+def r_str_primitive(chk, P, tier):
+    """every type that serializes as a string (collect_str / serialize_str) asks the deserializer for a string (deserialize_str / deserialize_string): a format that is not
+    self-describing (bincode, postcard) follows the requested primitive, so any other request (identifier, any, bytes) fails to read what was written"""
+    chk.rule("PAIR.str_primitive", "Deserialize of every string-serialized type (dates, times, date-times, Weekday, Month) requests deserialize_str", floor=8)
+    des = [n for n in P.fns if n.endswith("::deserialize") and "serde::Deserialize" in n and "{" not in n and "ts_" not in n and P.has(n)]
+    n_str = 0
+    for fn in sorted(des):
+        ser_ty = fn.split(" for ")[-1].rsplit(">::deserialize", 1)[0] if " for " in fn else fn
+        cs = callees(P, fn)
+        reqs = sorted(c.split("::")[-1] for c in cs if "Deserializer::deserialize_" in c)
+        if not reqs:
+            continue
+        if any(r in ("deserialize_tuple", "deserialize_struct", "deserialize_seq", "deserialize_newtype_struct") for r in reqs):
+            continue        # TimeDelta (secs, nanos): covered by PAIR.timedelta
+        n_str += 1
+        ok = all(r in ("deserialize_str", "deserialize_string") for r in reqs)
+        chk.expect(ok, ser_ty[-60:], "%s requests %s from the deserializer; its Serialize writes a string (collect_str): expected deserialize_str" % (fn, reqs), loc=P.loc(fn))
+    if n_str < 8:
+        raise AnchorLost("only %d string-form Deserialize impls found" % n_str)
+
+
+def r_visit_some_errors(chk, P, tier):
+    """an `_option` visitor must not swallow the error of the value it wraps: visit_some returns the inner deserializer's result mapped with Some (Result::map), it never
+    turns a failure into None / a default (Result::ok, unwrap_or*, or*)"""
+    chk.rule("ERR.visit_some", "every ts_*_option visit_some propagates the inner error (Result::map(.., Some)); no Result::ok / unwrap_or / or", floor=8)
+    swallow = ("::ok", "::unwrap_or", "::unwrap_or_default", "::unwrap_or_else", "::or", "::or_else", "::map_or", "::map_or_else", "::is_ok", "::is_err", "::err")
+    for fam in FAMS:
+        for unit in UNITS:
+            mod = "%sts_%s_option::" % (fam, unit)
+            vs = find_fn(P, mod, "::visit_some")
+            if len(vs) != 1:
+                raise AnchorLost(mod + "visit_some")
+            cs = callees(P, vs[0])
+            bad = sorted(c.split("::")[-1] for c in cs if (c.startswith("std::result::Result::<T, E>") or c.startswith("std::option::Option::<T>")) and c.endswith(swallow))
+            ok = not bad and any(c.endswith("Result::<T, E>::map") for c in cs)
+            chk.expect(ok, vs[0][-70:], "%s handles the inner result with %s (expected Result::map(.., Some): a failure must stay a failure)" % (vs[0], bad or sorted(c.split("::")[-1] for c in cs)), loc=P.loc(vs[0]))
